@@ -117,7 +117,7 @@ func runBinCfg(args []string) {
 				} else if !ok {
 					cls = "other"
 				}
-				tr.emit(J{"op": "Cfg:" + name, "a": J{"op": "Cfg:" + name, "min": minFlag, "price": price}, "r": J{"ok": ok, "err": cls},
+				tr.emit(J{"ev": "cfg", "op": "Cfg:" + name, "a": J{"op": "Cfg:" + name, "min": minFlag, "price": price}, "r": J{"ok": ok, "err": cls},
 					"c": J{"min": minFlag, "price": price, "stage": name}, "ok": ok, "low": low, "sign": sign, "err": msg,
 					"disconnects": disc, "othercalls": other, "alive": p.alive()})
 			}
